@@ -104,6 +104,7 @@ type netSim struct {
 	maxWait  time.Duration
 	quiet    time.Duration
 	steps    int
+	lagged   bool
 	root     string
 }
 
@@ -436,7 +437,12 @@ func (s *netSim) curRound() uint64 {
 // settle waits (bounded) until the up nodes reached `expect` (a hint, may be nil) and then until nothing has
 // moved for the quiet window.
 func (s *netSim) settle(expect []uint64) (timedOut bool) {
-	deadline := time.Now().Add(s.maxWait)
+	wait := s.maxWait
+	if s.lagged {
+		// the implementation already missed a hint in this script: do not spend the full budget on every later step
+		wait = 8 * s.quiet
+	}
+	deadline := time.Now().Add(wait)
 	if expect != nil {
 		for {
 			hs := s.heads()
@@ -451,6 +457,7 @@ func (s *netSim) settle(expect []uint64) (timedOut bool) {
 			}
 			if time.Now().After(deadline) {
 				timedOut = true
+				s.lagged = true
 				break
 			}
 			time.Sleep(2 * time.Millisecond)
